@@ -24,37 +24,43 @@ Print Assumptions leaf_next_power_of_two_is_model.
 Theorem leaf_read_space_internal_is_model :
   forall rg r w, Ring.leaf_read_space_internal_dom (RingModel.size_mask rg) r w ->
     Ring.leaf_read_space_internal (RingModel.size_mask rg) r w = RingModel.read_space_internal rg r w.
-Proof. intros rg r w _. unfold Ring.leaf_read_space_internal, RingModel.read_space_internal. arith. Qed.
+Proof. intros rg r w _. unfold Ring.leaf_read_space_internal, RingModel.read_space_internal. arith.
+Qed.
 Print Assumptions leaf_read_space_internal_is_model.
 
 Theorem leaf_write_space_internal_is_model :
   forall rg r w, Ring.leaf_write_space_internal_dom (RingModel.size_mask rg) r w ->
     Ring.leaf_write_space_internal (RingModel.size_mask rg) r w = RingModel.write_space_internal rg r w.
-Proof. intros rg r w _. unfold Ring.leaf_write_space_internal, RingModel.write_space_internal. arith. Qed.
+Proof. intros rg r w _. unfold Ring.leaf_write_space_internal, RingModel.write_space_internal. arith.
+Qed.
 Print Assumptions leaf_write_space_internal_is_model.
 
 Theorem leaf_ring_capacity_is_model :
   forall rg, Ring.leaf_zix_ring_capacity_dom (RingModel.size rg) ->
     Ring.leaf_zix_ring_capacity (RingModel.size rg) = RingModel.ring_capacity rg.
-Proof. intros rg _. unfold Ring.leaf_zix_ring_capacity, RingModel.ring_capacity. arith. Qed.
+Proof. intros rg _. unfold Ring.leaf_zix_ring_capacity, RingModel.ring_capacity. arith.
+Qed.
 Print Assumptions leaf_ring_capacity_is_model.
 
 (* ring->size_mask = ring->size - 1U in zix_ring_new: the mask RingModel.ring_new stores *)
 Theorem leaf_ring_new_size_mask_is_model :
   forall sz junk, RingModel.size_mask (RingModel.ring_new sz junk) =
                   Ring.leaf_ring_new_size_mask (RingModel.size (RingModel.ring_new sz junk)).
-Proof. intros. unfold Ring.leaf_ring_new_size_mask. cbn [RingModel.ring_new RingModel.size RingModel.size_mask]. arith. Qed.
+Proof. intros. unfold Ring.leaf_ring_new_size_mask. cbn [RingModel.ring_new RingModel.size RingModel.size_mask]. arith.
+Qed.
 Print Assumptions leaf_ring_new_size_mask_is_model.
 
 (* the two-thread model of C04 uses the same two expressions with the mask taken from its configuration *)
 Theorem leaf_read_space_is_conc_model :
   forall c r w, Ring.leaf_read_space_internal_dom (RingConcModel.rmask c) r w ->
     Ring.leaf_read_space_internal (RingConcModel.rmask c) r w = RingConcModel.read_space c r w.
-Proof. intros c r w _. unfold Ring.leaf_read_space_internal, RingConcModel.read_space, RingConcModel.band. arith. Qed.
+Proof. intros c r w _. unfold Ring.leaf_read_space_internal, RingConcModel.read_space, RingConcModel.band. arith.
+Qed.
 Print Assumptions leaf_read_space_is_conc_model.
 
 Theorem leaf_write_space_is_conc_model :
   forall c r w, Ring.leaf_write_space_internal_dom (RingConcModel.rmask c) r w ->
     Ring.leaf_write_space_internal (RingConcModel.rmask c) r w = RingConcModel.write_space c r w.
-Proof. intros c r w _. unfold Ring.leaf_write_space_internal, RingConcModel.write_space, RingConcModel.band. arith. Qed.
+Proof. intros c r w _. unfold Ring.leaf_write_space_internal, RingConcModel.write_space, RingConcModel.band. arith.
+Qed.
 Print Assumptions leaf_write_space_is_conc_model.
